@@ -3,6 +3,7 @@ package main
 import (
 	"encoding/json"
 	"fmt"
+	"os"
 	"regexp"
 	"sort"
 	"strings"
@@ -433,7 +434,9 @@ func checkC19(c *Ctx) {
 	p := c.NewPool(0)
 	scKinds = scAllKinds
 	scCoreKinds = `{"local","use","assign","do","lfunc","lefunc","gfunc","meth"}`
-	scopeRuns(c, p, c19Build, func(j *Job, r *proto.Result) { c19Judge(c, j, r) })
+	if os.Getenv("VERIF_ONLY") != "big" { // (development aid)
+		scopeRuns(c, p, c19Build, func(j *Job, r *proto.Result) { c19Judge(c, j, r) })
+	}
 	c19BigFiles(c, p)
 	// Project.tla: workspaces analysed as a project (entry file + what it requires), both modes
 	projectRuns(c, p, 0, "outline wsym")
@@ -473,6 +476,21 @@ func c19BigFiles(c *Ctx, p *pool.Pool) {
 		wants[pc.ID] = ws
 		groups = append(groups, []*proto.Case{pc})
 	}
+	// tables that get their members in other ways than "T = {} ; function T.f()": a table declared first without a value
+	// and given a constructor later, and a global table created (with its members) inside a function body
+	{
+		text := "local M\nM = { start = function() end, stop = function(a) return a end }\nRegistry = nil\nRegistry = { lookup = function(k) return k end }\n" +
+			"function init()\n  Registry2 = {}\n  function Registry2.add(p) return p end\n  function Registry2:reset() end\n  Registry2.count = function() return 0 end\nend\nprint(M, Registry, init)\n"
+		ws := []want{{"M.start", "M.start", 1, 6}, {"M.stop", "M.stop", 1, 31}, {"Registry.lookup", "Registry.lookup", 3, 13},
+			{"Registry2.add", "Registry2.add", 6, 21}, {"Registry2:reset", "Registry2.reset", 7, 21}, {"Registry2.count", "Registry2.count", 8, 12}, {"init", "init", 4, 9}}
+		pc := &proto.Case{ID: 9100, Files: map[string]string{"big.lua": text, "small.lua": "function small_fn() end\n"}, Init: json.RawMessage(allOnLocal)}
+		pc.Steps = append(pc.Steps, openStep("big.lua", text))
+		for _, w := range ws {
+			pc.Steps = append(pc.Steps, proto.Step{M: "workspace/symbol", P: json.RawMessage(fmt.Sprintf(`{"query":%s}`, jstr(w.q)))})
+		}
+		wants[pc.ID] = ws
+		groups = append(groups, []*proto.Case{pc})
+	}
 	p.RunSlice(groups, func(pc *proto.Case, res *proto.Result) {
 		raw, _ := json.Marshal(map[string]interface{}{"fam": "bigfile", "id": pc.ID})
 		c.Rep.Eval(string(raw))
@@ -499,7 +517,13 @@ func c19BigFiles(c *Ctx, p *pool.Pool) {
 				continue
 			}
 			if !found {
-				prob = append(prob, fmt.Sprintf("workspace/symbol %q returns %d entries, none located at the declaration at big.lua %d:%d", w.q, len(ws), w.line, w.col))
+				var names []string
+				for _, e := range ws {
+					if len(names) < 6 {
+						names = append(names, fmt.Sprintf("%s@%d:%d", e.Name, e.Location.Range.Start.Line, e.Location.Range.Start.Character))
+					}
+				}
+				prob = append(prob, fmt.Sprintf("workspace/symbol %q returns %d entries %v, none located at the declaration at big.lua %d:%d", w.q, len(ws), names, w.line, w.col))
 			}
 		}
 		if len(prob) == 0 {
